@@ -336,6 +336,9 @@ func (w *World) Apply(op M) (line M) {
 		line["conf"] = c
 	case "bad":
 		w.applyBad(op, line)
+	case "restart":
+		line["old"], line["expect"], line["inflight"], line["replayed"], line["asks"] = M{}, M{}, 0, 0, M{}
+		w.restart(op, line)
 	case "deny":
 		w.H.SetDeny(gs(op, "key"), gs(op, "node"), true)
 	case "cleanQueues":
